@@ -614,3 +614,150 @@ def is_canon_conv(t, ap):
     if ("From<%s> for crate::u256::U256" % ap) in s or ("%s as core::convert::Into<crate::u256::U256>" % ap) in s:
         return strip(t[2][0])
     return None
+
+
+# ====================================================================== forwarding wrappers with algebraic fast paths
+def peel_param(t):
+    """(param index, field path) if the term is (a projection of) a parameter or of the memory behind one."""
+    t = strip(t)
+    path = []
+    while t[0] == "field":
+        path.append(t[2])
+        t = strip(t[1])
+    if t[0] == "param":
+        return (t[1], tuple(reversed(path)))
+    if t[0] == "init" and isinstance(t[1], tuple) and t[1][0] == "deref":
+        return (t[1][1], tuple(reversed(path)))
+    return None
+
+
+def path_table(repo, b, root=0, max_atoms=6):
+    """Loop-free body: [(assignment of its branch atoms, value of `root` at the return, PathResult)], panicking rows
+    dropped; None when some row cannot be followed to a return."""
+    from core import paths
+    tb = repo.tb(b)
+    atoms = paths.collect_atoms(b, tb)
+    if len(atoms) > max_atoms:
+        return None
+    rows = []
+    seen = set()
+    for asg in paths.enumerate_assignments(atoms):
+        res = paths.simulate(b, tb, paths.Evaluator(asg))
+        if res.end == "diverge":
+            continue
+        if res.end != "return":
+            return None
+        key = tuple(res.blocks)
+        # only the atoms actually consulted on this path matter
+        val = paths.path_value(b, tb, res.blocks, root)
+        used = {}
+        for a, v in asg.items():
+            used[a] = v
+        if (key, tuple(sorted((repr(a), v) for a, v in used.items()))) in seen:
+            continue
+        seen.add((key, tuple(sorted((repr(a), v) for a, v in used.items()))))
+        rows.append((asg, val, res))
+    return rows
+
+
+def algebra_facts(asg):
+    """What an assignment of branch atoms says about the operands: {('zero'|'one', (param, proj))}; plus 'other' when an
+    atom it cannot read is true."""
+    facts = set()
+    for atom, val in asg.items():
+        if atom[0] == "bool" and isinstance(atom[1], tuple) and atom[1][0] == "call" and atom[1][1].name == "is_zero" and len(atom[1][2]) == 1:
+            k = peel_param(atom[1][2][0])
+            if val == 1 and k is not None:
+                facts.add(("zero", k))
+            elif val == 1:
+                facts.add(("other",))
+            continue
+        if atom[0] == "ord":
+            a, b = atom[1], atom[2]
+            hit = False
+            for x, y in ((a, b), (b, a)):
+                y = strip(y)
+                if y[0] == "call" and not y[2] and y[1].name in ("one", "zero"):
+                    k = peel_param(x)
+                    if k is not None:
+                        hit = True
+                        if val == "E":
+                            facts.add((y[1].name, k))
+            if not hit and val == "E":
+                facts.add(("other",))
+            continue
+        if val in (1, "E"):
+            facts.add(("other",))
+    return facts
+
+
+def classify_value(v):
+    v = strip(v)
+    if v[0] == "call" and not v[2] and v[1].name in ("zero", "one"):
+        return v[1].name.upper()
+    k = peel_param(v)
+    if k is not None:
+        return ("arg",) + k
+    if v[0] == "agg" and v[1] == "core::option::Option":
+        return "NONE" if v[2] == "None" else ("SOME", classify_value(v[3][0]))
+    return None
+
+
+def identity_ok(op, facts, vc):
+    """Is returning the value class `vc` an algebraic identity of `op` under the operand facts? (P·0 = O, x^1 = x, …)"""
+    Z = lambda k: ("zero", (k, ())) in facts
+    O = lambda k: ("one", (k, ())) in facts
+    arg = lambda k: vc == ("arg", k, ())
+    if op == "smul":       # (point, scalar)
+        return (Z(2) and vc == "ZERO") or (O(2) and arg(1)) or (Z(1) and (vc == "ZERO" or arg(1)))
+    if op == "smul_rev":   # (scalar, point)
+        return (Z(1) and vc == "ZERO") or (O(1) and arg(2)) or (Z(2) and (vc == "ZERO" or arg(2)))
+    if op == "pow":
+        return (Z(2) and vc == "ONE") or (O(2) and arg(1)) or (O(1) and (vc == "ONE" or arg(1)))
+    if op == "inverse":
+        return (Z(1) and vc == "NONE") or (O(1) and vc in (("SOME", "ONE"), ("SOME", ("arg", 1, ()))))
+    if op == "add":
+        return (Z(1) and arg(2)) or (Z(2) and arg(1))
+    if op == "sub":
+        return Z(2) and arg(1)
+    if op == "mul":
+        return (Z(1) and (vc == "ZERO" or arg(1))) or (Z(2) and (vc == "ZERO" or arg(2))) or (O(1) and arg(2)) or (O(2) and arg(1))
+    if op in ("neg", "double"):
+        return Z(1) and (vc == "ZERO" or arg(1))
+    if op == "squared":
+        return (Z(1) and (vc == "ZERO" or arg(1))) or (O(1) and (vc == "ONE" or arg(1)))
+    if op == "normalize":
+        return Z(1) and arg(1)
+    return False
+
+
+def forwards(repo, b, main_pred, op, root=0):
+    """Does every return of `b` either have the main forwarding shape (main_pred(value) → bool / (bool, why)) or return an
+    algebraic identity of `op` on a path guarded by the matching operand test? → (ok, why)"""
+    def mp(v):
+        try:
+            r = main_pred(v)
+        except (IndexError, TypeError, KeyError):
+            return False, "shape"
+        return r if isinstance(r, tuple) else (bool(r), "")
+    tb = repo.tb(b)
+    whole = tb.return_value() if root == 0 else tb.final_value(root)
+    ok, why = mp(whole)
+    if ok:
+        return True, ""
+    rows = path_table(repo, b, root)
+    if not rows:
+        return False, why or show(whole, maxdepth=3)[:160]
+    main_seen = False
+    for asg, val, res in rows:
+        okr, whyr = mp(val)
+        facts = algebra_facts(asg)
+        if okr:
+            main_seen = True
+            continue
+        if identity_ok(op, facts, classify_value(val)):
+            continue
+        return False, "on the path where %s it returns %s%s" % (sorted(facts) or "no operand test holds", show(val, maxdepth=3)[:120], ("; " + whyr) if whyr else "")
+    if not main_seen:
+        return False, "no path forwards to the operation"
+    return True, ""
